@@ -1,4 +1,4 @@
-\* THOROUGH: both assumptions, restart + view; safety + action coverage; chain <= 3, Retained 1
+\* THOROUGH: both assumptions, restart + view; safety + action coverage; chain <= 3, Retained 0
 CONSTANTS
   InitLen = 2
   MaxLen = 3
@@ -7,11 +7,12 @@ CONSTANTS
   MaxL1 = 1
   MaxRestarts = 1
   MaxViews = 1
-  Retained = 1
+  Retained = 0
   Lag = 10
   L2PerPrune = 1
   AssumeFinality = TRUE
   AssumeSlowL1 = TRUE
+  FixHashChecks = FALSE
 SPECIFICATION Spec
 INVARIANTS TypeOK LocalIsChain P1_DurableFloor P1_MemFloor P1_KeepMax P2_NeverStuck P2_NoPruneError P2_HeadRetained
   P3_RetainedPresent P3_Contiguous P3_StateReadable P3_HeadersLag P4_ViewBase P4_HeadStateServable
